@@ -369,7 +369,20 @@ Section Proofs.
     - destruct (str_eqb k0 k'); [reflexivity|exact IH].
   Qed.
 
+  Lemma assoc_get_del l k k' :
+    assoc_get (assoc_del l k) k' = if str_eqb k k' then None else assoc_get l k'.
+  Proof.
+    unfold assoc_del. induction l as [|[k0 v0] l IH]; simpl.
+    - destruct (str_eqb k k'); reflexivity.
+    - destruct (str_eqb k0 k) eqn:E0; simpl.
+      + apply str_eqb_spec in E0. subst k0. rewrite IH. destruct (str_eqb k k'); reflexivity.
+      + rewrite IH. destruct (str_eqb k k') eqn:E.
+        * apply str_eqb_spec in E. subst k'. rewrite E0. reflexivity.
+        * reflexivity.
+  Qed.
+
   Arguments assoc_set : simpl never.
+  Arguments assoc_del : simpl never.
 
   Definition desc_ok (d : desc) (bs : str) : Prop := matches_desc (d_dg d) (d_sz d) bs.
 
@@ -497,11 +510,11 @@ Section Proofs.
       { intro E; inversion E; subst e s'. split; [split; auto|]. split; [discriminate|]. auto. }
       destruct (copy_buffer H comb true fuel (mkBase evs None) file_bufsz (d_dg d) (d_sz d)) as [[[e0|] out] v] eqn:Ec;
         intro E; inversion E; subst e s'; clear E.
-      + (* failed: the partial file stays, nothing is recorded *)
+      + (* failed: the partial file is removed, nothing is recorded *)
         assert (Fk : forall dg p, assoc_get (f_d2p s) dg = Some p ->
-                       assoc_get (assoc_set (f_files s) name out) p = assoc_get (f_files s) p).
+                       assoc_get (assoc_del (f_files s) name) p = assoc_get (f_files s) p).
         { intros dg p Gp. destruct (Ok1 _ _ Gp) as (Np & _).
-          rewrite assoc_get_set, (name_in_neq _ _ _ Nin Np). reflexivity. }
+          rewrite assoc_get_del, (name_in_neq _ _ _ Nin Np). reflexivity. }
         split; [|split; [discriminate|]].
         * split; auto. cbn [f_d2p f_files f_names f_fb name_in existsb]. intros dg p Gp. destruct (Ok1 _ _ Gp) as (Np & bs & Fb & Db).
           split; auto. exists bs. rewrite (Fk _ _ Gp). auto.
